@@ -89,7 +89,7 @@ Fixpoint Ok (fin : list bool) (nodes : list lnode) (d : nat) (n : tnode) (c : N)
   | TLeaf => c = 0 /\ (d <= 4)%nat
   | TInvalid k => (k <= 3)%nat /\ c = 65535 - N.of_nat k /\ (d + k <= 4)%nat
   | TSub cc =>
-    c < 65532 /\ (d < 4)%nat /\ group_shape None cc = true /\
+    (c < 65532 /\ c + N.of_nat (length cc) <= 65532) /\ (d < 4)%nat /\ group_shape None cc = true /\
     match d with O => c = 0 | S _ => 0 < c end /\
     (fix go (cs : list (byte * tnode)) (cur : nat) {struct cs} : Prop :=
        match cs with
@@ -111,7 +111,7 @@ Definition OkG (fin : list bool) (nodes : list lnode) (d : nat) :=
 
 Lemma Ok_sub fin nodes d cc c :
   Ok fin nodes d (TSub cc) c =
-  (c < 65532 /\ (d < 4)%nat /\ group_shape None cc = true /\
+  ((c < 65532 /\ c + N.of_nat (length cc) <= 65532) /\ (d < 4)%nat /\ group_shape None cc = true /\
    match d with O => c = 0 | S _ => 0 < c end /\ OkG fin nodes d cc (N.to_nat c)).
 Proof. reflexivity. Qed.
 
@@ -129,12 +129,13 @@ Proof.
   - destruct H as (H1 & H2). rewrite lin_node_leaf, andb_true_iff.
     split; [apply N.eqb_eq|apply Nat.leb_le]; assumption.
   - rewrite Ok_sub in H. destruct H as (H1 & H2 & H3 & H4 & H5).
-    rewrite lin_node_sub, !andb_true_iff. repeat split.
+    rewrite lin_node_sub, !andb_true_iff. destruct H1 as [H1a H1b]. repeat split.
     + apply N.ltb_lt; assumption.
+    + apply N.leb_le; assumption.
     + apply Nat.ltb_lt; assumption.
     + assumption.
     + destruct d; [apply N.eqb_eq|apply N.ltb_lt]; assumption.
-    + generalize dependent (N.to_nat c). clear H1 H3 H4.
+    + generalize dependent (N.to_nat c). clear H1a H1b H3 H4.
       induction IH as [|[h n'] r Hn' Hr IHr]; intros cur H5; [reflexivity|].
       rewrite OkG_cons in H5. destruct H5 as [(ln & E1 & E2 & E3 & E4) H6].
       rewrite lin_group_cons, E1, !andb_true_iff. repeat split.
@@ -160,8 +161,8 @@ Lemma Ok_mono fin nodes fin' nodes' : ext nodes fin nodes' fin' ->
   forall n d c, Ok fin nodes d n c -> Ok fin' nodes' d n c.
 Proof.
   intro Hext. induction n as [k| |cc IH] using tnode_ind2; intros d c H; [exact H|exact H|].
-  rewrite Ok_sub in *. destruct H as (H1 & H2 & H3 & H4 & H5). repeat split; try assumption.
-  generalize dependent (N.to_nat c). clear H1 H3 H4.
+  rewrite Ok_sub in *. destruct H as ([H1a H1b] & H2 & H3 & H4 & H5). repeat split; try assumption.
+  generalize dependent (N.to_nat c). clear H1a H1b H3 H4.
   induction IH as [|[h n'] r Hn' Hr IHr]; intros cur H5; [exact I|].
   rewrite OkG_cons in *. destruct H5 as [(ln & E1 & E2 & E3 & E4) H6].
   destruct (Hext cur E2) as [Ha Hb]. split; [|apply IHr; assumption].
@@ -460,6 +461,7 @@ Proof.
   pose proof (new_codec_tree_twf csr t Ht) as Hw.
   destruct (append_ok (TSub t) [] init_done [] 0%nat pos nodes done' eq_refl (DoneInv_init _ _) Hw E)
     as (fin' & L' & E' & P' & F' & D' & Hpos & G').
+  destruct (append_len _ _ _ _ _ _ E) as (_ & Hguard & _). cbn [children_of length] in Hguard.
   unfold lin_ok. apply (Ok_lin fin' nodes). rewrite Ok_sub.
   apply Twf_sub_inv in Hw as Hw2. destruct Hw2 as [Hsh _].
   split; [lia|]. split; [lia|]. split; [assumption|]. split; [reflexivity|].
